@@ -86,6 +86,12 @@ func Load(o LoadOpts) (*Program, error) {
 		env = append(env, e)
 	}
 	env = append(env, "GOWORK=off", "GOFLAGS=-mod=mod", "GOPROXY=off", "GOSUMDB=off", "GOTOOLCHAIN=local", "CGO_ENABLED=0")
+	if o.GOARCH == "" {
+		o.GOARCH = os.Getenv("GCV_GOARCH") // build configuration of the whole run (thorough tier: 386)
+	}
+	if o.Tags == "" {
+		o.Tags = os.Getenv("GCV_TAGS")
+	}
 	if o.GOARCH != "" {
 		env = append(env, "GOARCH="+o.GOARCH)
 	}
